@@ -235,3 +235,29 @@ pub fn idioms<D: Dom>(cx: &RunCtx, kinds: &[Kind]) {
     let inputs = refmodel::families::idioms(D::EV);
     run_list::<D>(cx, "E-FAM multi-node idioms (hypot, fma, expm1, ln_1p, atan2, algebraic simplifications) x awkward operands", &inputs, &[D::default_at()], kinds);
 }
+
+fn special_integers_dom<D: Dom>(cx: &RunCtx, kinds: &[Kind]) {
+    let inputs = refmodel::families::special_integers(D::EV);
+    run_list::<D>(cx, "E-FAM every one-argument function x perfect squares, cubes, powers and their neighbours beyond 2^53", &inputs, &[D::default_at()], kinds);
+}
+
+pub fn special_integers_all(cx: &RunCtx, kinds: &[Kind]) {
+    special_integers_dom::<F64>(cx, kinds);
+    special_integers_dom::<I64>(cx, kinds);
+    special_integers_dom::<Dec>(cx, kinds);
+    special_integers_dom::<Cpx>(cx, kinds);
+    special_integers_dom::<Num>(cx, kinds);
+}
+
+fn plausible_names_dom<D: Dom>(cx: &RunCtx, kinds: &[Kind]) {
+    let inputs = refmodel::families::plausible_names(D::EV);
+    run_list::<D>(cx, "E-FAM plausible names that the evaluator does not offer x calling shapes", &inputs, &[D::default_at()], kinds);
+}
+
+pub fn plausible_names_all(cx: &RunCtx, kinds: &[Kind]) {
+    plausible_names_dom::<F64>(cx, kinds);
+    plausible_names_dom::<I64>(cx, kinds);
+    plausible_names_dom::<Dec>(cx, kinds);
+    plausible_names_dom::<Cpx>(cx, kinds);
+    plausible_names_dom::<Num>(cx, kinds);
+}
